@@ -328,6 +328,8 @@ class CentrallyBin(Factory, Container):
 
     @inheritdoc(Container)
     def __add__(self, other):
+        if not isinstance(other, CentrallyBin):
+            raise ContainerException(f"cannot add {self.name} and {other.name}")
         if self.centers != other.centers:
             raise ContainerException(
                 f"cannot add CentrallyBin because centers are different:\n    {self.centers}\nvs\n    {other.centers}"
@@ -347,6 +349,8 @@ class CentrallyBin(Factory, Container):
 
     @inheritdoc(Container)
     def __iadd__(self, other):
+        if not isinstance(other, CentrallyBin):
+            raise ContainerException(f"cannot add {self.name} and {other.name}")
         if self.centers != other.centers:
             raise ContainerException(
                 f"cannot add CentrallyBin because centers are different:\n    {self.centers}\nvs\n    {other.centers}"
